@@ -1,6 +1,7 @@
 CONSTANTS LOCSYMSIGHT = 3
-          MaxLen = 4 MaxDepth = 2 Focus = "stack" Devs = {"popv_const", "dd_same_name", "empty_macro_nested"} CaseModes = {FALSE}
+          MaxLen = 4 MaxDepth = 2 Focus = "stack" CaseModes = {FALSE}
+          DevSets = {{"popv_const", "dd_same_name", "empty_macro_nested"}} CheckConst = TRUE
 SPECIFICATION Spec
-INVARIANTS LookupAgreesWithManual ExtraPassAgrees ConvergesInTwo StackMirrorsText
-PROPERTIES ConstNeverChanges
+INVARIANTS LookupAgreesWithManual ExtraPassAgrees ConvergesInTwo StackMirrorsText StacksNonEmpty
+PROPERTIES ConstNeverChanges RedefIsError
 CHECK_DEADLOCK FALSE
